@@ -33,6 +33,8 @@ type c12Loop struct {
 	op     string
 	step   int
 	stepV  string // non-empty: the step is this variable (its sign is not known to the analysis)
+	mul    int    // non-zero: the update is v *= mul (a geometric counter, not start + k*step)
+	cmpT   string // non-empty: the header test compares cmpT(v) with cmpT(bound)
 	shape  string
 	native string
 	plain  string
@@ -63,6 +65,14 @@ func c12Gen(l *c12Loop, inner [2]string) {
 	if l.stepV != "" {
 		upd = fmt.Sprintf("%s += %s", v, cv(l.stepV))
 	}
+	if l.mul != 0 {
+		upd = fmt.Sprintf("%s *= %d", v, l.mul)
+	}
+	tv := v // what the header test looks at
+	if l.cmpT != "" {
+		tv = l.cmpT + "(" + v + ")"
+		N = l.cmpT + "(" + l.bound + ")"
+	}
 	body := fmt.Sprintf("acc += int(%s)", v)
 	if inner[0] != "" {
 		body = "%INNER%"
@@ -71,11 +81,11 @@ func c12Gen(l *c12Loop, inner [2]string) {
 	var plain, nat string
 	switch l.shape {
 	case "for3":
-		plain = fmt.Sprintf("for %s := %s; %s %s %s; %s {\n%s\n}", v, S, v, l.op, N, upd, body)
-		nat = fmt.Sprintf("begin(%d)\nfor %s := %s; %s && %s %s %s; %s {\nbody(%d)\n%s\n}", id, v, S, hdr, v, l.op, N, upd, id, body)
+		plain = fmt.Sprintf("for %s := %s; %s %s %s; %s {\n%s\n}", v, S, tv, l.op, N, upd, body)
+		nat = fmt.Sprintf("begin(%d)\nfor %s := %s; %s && %s %s %s; %s {\nbody(%d)\n%s\n}", id, v, S, hdr, tv, l.op, N, upd, id, body)
 	case "while":
-		plain = fmt.Sprintf("%s := %s\nfor %s %s %s {\n%s\n%s\n}", v, S, v, l.op, N, body, upd)
-		nat = fmt.Sprintf("%s := %s\nbegin(%d)\nfor %s && %s %s %s {\nbody(%d)\n%s\n%s\n}", v, S, id, hdr, v, l.op, N, id, body, upd)
+		plain = fmt.Sprintf("%s := %s\nfor %s %s %s {\n%s\n%s\n}", v, S, tv, l.op, N, body, upd)
+		nat = fmt.Sprintf("%s := %s\nbegin(%d)\nfor %s && %s %s %s {\nbody(%d)\n%s\n%s\n}", v, S, id, hdr, tv, l.op, N, id, body, upd)
 	case "bottom":
 		plain = fmt.Sprintf("%s := %s\nfor {\n%s\n%s\nif !(%s %s %s) {\nbreak\n}\n}", v, S, body, upd, v, l.op, N)
 		nat = fmt.Sprintf("%s := %s\nbegin(%d)\nfor {\n%s\nbody(%d)\n%s\n%s\nif !(%s %s %s) {\nbreak\n}\n}", v, S, id, hdr, id, body, upd, v, l.op, N)
@@ -90,8 +100,8 @@ func c12Gen(l *c12Loop, inner [2]string) {
 		plain = fmt.Sprintf("%s := %s\nfor {\n%s\nif !(%s %s %s) {\nbreak\n}\n%s\n}", v, S, body, v, l.op, N, upd)
 		nat = fmt.Sprintf("%s := %s\nbegin(%d)\nfor {\n%s\nbody(%d)\n%s\nif !(%s %s %s) {\nbreak\n}\n%s\n}", v, S, id, hdr, id, body, v, l.op, N, upd)
 	case "exittrue":
-		plain = fmt.Sprintf("%s := %s\nfor {\nif %s %s %s {\nbreak\n}\n%s\n%s\n}", v, S, v, c12Neg(l.op), N, body, upd)
-		nat = fmt.Sprintf("%s := %s\nbegin(%d)\nfor {\n%s\nif %s %s %s {\nbreak\n}\nbody(%d)\n%s\n%s\n}", v, S, id, hdr, v, c12Neg(l.op), N, id, body, upd)
+		plain = fmt.Sprintf("%s := %s\nfor {\nif %s %s %s {\nbreak\n}\n%s\n%s\n}", v, S, tv, c12Neg(l.op), N, body, upd)
+		nat = fmt.Sprintf("%s := %s\nbegin(%d)\nfor {\n%s\nif %s %s %s {\nbreak\n}\nbody(%d)\n%s\n%s\n}", v, S, id, hdr, tv, c12Neg(l.op), N, id, body, upd)
 	case "continue":
 		b2 := fmt.Sprintf("if %s%%2 == 0 {\ncontinue\n}\n%s", v, body)
 		plain = fmt.Sprintf("for %s := %s; %s %s %s; %s {\n%s\n}", v, S, v, l.op, N, upd, b2)
@@ -174,6 +184,40 @@ func c12Family(thorough bool) []*c12Func {
 					l := &c12Loop{id: 0, v: "i", typ: "int", start: start, bound: bound, op: op, stepV: "b", shape: shape}
 					c12Gen(l, [2]string{})
 					add(fmt.Sprintf("int/%s/i%s%s/start=%s/step=b", shape, op, bound, start), []*c12Loop{l}, l.plain, l.native)
+				}
+			}
+		}
+	}
+	// geometric counters (i *= c): no start-plus-k-times-step description of them is right
+	for _, shape := range []string{"for3", "while", "exittrue"} {
+		for _, op := range []string{"<", "<=", "!="} {
+			for _, m := range []int{2, 3} {
+				for _, start := range []string{"1", "2", "a"} {
+					for _, bound := range []string{"20", "b"} {
+						l := &c12Loop{id: 0, v: "i", typ: "int", start: start, bound: bound, op: op, mul: m, shape: shape}
+						c12Gen(l, [2]string{})
+						add(fmt.Sprintf("int/%s/i%s%s/start=%s/times=%d", shape, op, bound, start, m), []*c12Loop{l}, l.plain, l.native)
+					}
+				}
+			}
+		}
+	}
+	// the header test looks at the counter through an integer conversion (sign-changing,
+	// narrowing, widening): the counter is still start + k*step, the test is not about it
+	for _, shape := range []string{"for3", "while", "exittrue"} {
+		for _, cmpT := range []string{"uint", "uint8", "int8", "int64"} {
+			for _, op := range []string{"<", "<=", "!=", ">"} {
+				for _, step := range []int{1, 2, -1} {
+					for _, start := range []string{"-3", "0", "300", "a"} {
+						for _, bound := range []string{"7", "b"} {
+							if !thorough && (step == 2 || op == "<=") && cmpT != "uint8" {
+								continue
+							}
+							l := &c12Loop{id: 0, v: "i", typ: "int", start: start, bound: bound, op: op, step: step, cmpT: cmpT, shape: shape}
+							c12Gen(l, [2]string{})
+							add(fmt.Sprintf("int/%s/%s(i)%s%s/start=%s/step=%+d", shape, cmpT, op, bound, start, step), []*c12Loop{l}, l.plain, l.native)
+						}
+					}
 				}
 			}
 		}
@@ -498,6 +542,34 @@ func TestVerifC12(t *testing.T) {
 				claimsText[f.name] = append(claimsText[f.name], desc)
 				fmt.Fprintf(&tab, "\t\t{%d, %d, %s, %s},\n", sl.id, width, ivf, tripf)
 			}
+		}
+		// what the CANONICAL IR says: every header phi it replaces by a recurrence text is a claim
+		// of the same kind (the phi itself is not printed, the recurrence is all that is left of it)
+		for _, sub := range ir.VerifSubstitutions(fn, ir.DefaultLiteralPolicy) {
+			phi, isPhi := sub.Instr.(*ssa.Phi)
+			rec, isRec := sub.Rec.(*loop.SCEVAddRec)
+			if !isPhi || !isRec {
+				continue
+			}
+			var sl *c12Loop
+			for _, cand := range f.loops {
+				if cand.v == phi.Comment {
+					sl = cand
+				}
+			}
+			if sl == nil {
+				continue
+			}
+			width := map[string]int{"int8": 8, "uint8": -8, "int16": 16, "uint32": -32}[sl.typ]
+			st, ok1 := c12Expr(rec.Start)
+			sp, ok2 := c12Expr(rec.Step)
+			if !ok1 || !ok2 {
+				r.Count("ir_iv_claims_not_evaluable", 1)
+				continue
+			}
+			r.Count("ir_iv_claims", 1)
+			claimsText[f.name] = append(claimsText[f.name], fmt.Sprintf("canonical IR prints %s as {%s, +, %s}", phi.Comment, rec.Start.String(), rec.Step.String()))
+			fmt.Fprintf(&tab, "\t\t{%d, %d, func(a, b int, k int64) val { return add(%s, mul(%s, lit(k))) }, nil},\n", sl.id, width, st, sp)
 		}
 		tab.WriteString("\t}},\n")
 	}
